@@ -748,15 +748,17 @@ Proof.
 Qed.
 
 (* ================= Prepeptide.to_biopython: leader / core / tail ================= *)
-Lemma prepeptide_guard g ll tl :
+(* the sections counted back from the end of the location (the code before the repair of
+   prepeptide_tail_boundary_shifted_by_stop_codon; it never looks at the core's length) *)
+Lemma prepeptide_old_guard g ll tl slack :
   guard_gene g = true -> 0 <= ll -> 0 <= tl -> ll + tl < llen g / 3 ->
-  exists locs, prepeptide_locs g ll tl = Ok locs /\
+  exists locs, prepeptide_locs_old_s g ll tl slack = Ok locs /\
     flat_map idx locs = sublist 0 (3 * (llen g / 3)) (idx g) /\
     Forall (fun l => contains g l = true) locs /\
     map llen locs = (if 0 <? ll then [3 * ll] else []) ++ [3 * (llen g / 3 - ll - tl)]
                     ++ (if 0 <? tl then [3 * tl] else []).
 Proof.
-  intros Hg Hl Ht Hlt. unfold prepeptide_locs. set (total := llen g / 3) in *.
+  intros Hg Hl Ht Hlt. unfold prepeptide_locs_old_s. set (total := llen g / 3) in *.
   destruct (subloc_guard g ll (total - tl) false false Hg) as [core [Hcore [Hc1 [Hc2 [Hc3 _]]]]];
     [lia|fold total; lia|].
   rewrite Hcore.
@@ -792,6 +794,32 @@ Proof.
     + simpl flat_map. rewrite app_nil_r, Hc3. f_equal; lia.
     + repeat constructor; assumption.
     + cbn [map app]. rewrite Hc2. repeat (f_equal; try lia).
+Qed.
+
+(* sections that fill the codons of the location exactly (slack = 0): counting from the start (the repaired code)
+   and counting back from the end (the code before) are the same function *)
+Lemma prepeptide_s_zero l ll tl :
+  0 <= tl -> prepeptide_locs_s l ll tl 0 = prepeptide_locs_old_s l ll tl 0.
+Proof.
+  intros Ht. unfold prepeptide_locs_s, prepeptide_locs_old_s. cbv zeta.
+  destruct (0 <? tl) eqn:E.
+  - replace (ll + (llen l / 3 - ll - tl - 0)) with (llen l / 3 - tl) by lia. reflexivity.
+  - assert (tl = 0) by lia. subst tl. replace (llen l / 3 - 0) with (llen l / 3) by lia. reflexivity.
+Qed.
+
+Lemma prepeptide_zero_old l ll tl :
+  0 <= tl -> prepeptide_locs l ll tl = prepeptide_locs_old_s l ll tl 0.
+Proof. intros Ht. unfold prepeptide_locs. apply prepeptide_s_zero. assumption. Qed.
+
+Lemma prepeptide_guard g ll tl :
+  guard_gene g = true -> 0 <= ll -> 0 <= tl -> ll + tl < llen g / 3 ->
+  exists locs, prepeptide_locs g ll tl = Ok locs /\
+    flat_map idx locs = sublist 0 (3 * (llen g / 3)) (idx g) /\
+    Forall (fun l => contains g l = true) locs /\
+    map llen locs = (if 0 <? ll then [3 * ll] else []) ++ [3 * (llen g / 3 - ll - tl)]
+                    ++ (if 0 <? tl then [3 * tl] else []).
+Proof.
+  intros Hg Hl Ht Hlt. rewrite prepeptide_zero_old by assumption. apply prepeptide_old_guard; assumption.
 Qed.
 
 (* ================= TTA marker on a single-exon gene ================= *)
@@ -1895,4 +1923,213 @@ Proof.
     + cbn [rev map flat_map]. rewrite concat_app. cbn [concat]. rewrite app_nil_r, <- app_assoc.
       rewrite IH. cbn [flat_map]. rewrite rev_app_distr, idx_app, <- app_assoc. reflexivity.
   - apply llen_rev.
+Qed.
+
+(* ================= Prepeptide on a location that holds more codons than its sections ================= *)
+(* finding prepeptide_tail_boundary_shifted_by_stop_codon (repaired) and what is left of it,
+   prepeptide_last_section_holds_stop_codon *)
+Lemma zlist_eqb_refl a : zlist_eqb a a = true.
+Proof.
+  unfold zlist_eqb. induction a as [|x a IH]; [reflexivity|].
+  cbn [list_eqb]. rewrite Z.eqb_refl, IH. reflexivity.
+Qed.
+
+Lemma spec_sub_of_ok g s e sub : subloc_ok g s e sub -> spec_sub g s e sub = true.
+Proof.
+  intros [Hc [Hl [Hi _]]]. unfold spec_sub. rewrite Hc, Hl, Hi, Z.eqb_refl, zlist_eqb_refl. reflexivity.
+Qed.
+
+(* one location per residue range, each with everything C09_subloc states for its range *)
+Definition sections_ok (g : loc) (ranges : list (Z * Z)) (locs : list loc) : Prop :=
+  Forall2 (fun r l => subloc_ok g (fst r) (snd r) l) ranges locs.
+
+Lemma spec_sections_of_ok g ranges locs : sections_ok g ranges locs -> spec_sections g ranges locs = true.
+Proof.
+  intros H. induction H as [|[s e] l rr lr H1 _ IH]; [reflexivity|].
+  cbn [spec_sections]. cbn [fst snd] in H1. rewrite (spec_sub_of_ok _ _ _ _ H1), IH. reflexivity.
+Qed.
+
+(* the ranges spelt out *)
+Lemma extended_ranges_tail total ll tl slack : 0 < tl ->
+  extended_ranges total ll tl slack
+  = (if 0 <? ll then [(0, ll)] else []) ++ [(ll, total - tl - slack); (total - tl - slack, total)].
+Proof.
+  intros Ht. unfold extended_ranges, section_ranges. cbv zeta.
+  destruct (0 <? tl) eqn:E; [reflexivity|lia].
+Qed.
+
+Lemma extended_ranges_no_tail total ll slack :
+  extended_ranges total ll 0 slack = (if 0 <? ll then [(0, ll)] else []) ++ [(ll, total)].
+Proof. reflexivity. Qed.
+
+Lemma strict_ranges_tail total ll tl slack : 0 < tl ->
+  strict_ranges total ll tl slack
+  = (if 0 <? ll then [(0, ll)] else []) ++ [(ll, total - tl - slack); (total - tl - slack, total - slack)].
+Proof.
+  intros Ht. unfold strict_ranges, section_ranges. cbv zeta.
+  destruct (0 <? tl) eqn:E; [|lia].
+  replace (total - tl - slack + tl) with (total - slack) by lia. reflexivity.
+Qed.
+
+Lemma strict_ranges_no_tail total ll slack :
+  strict_ranges total ll 0 slack = (if 0 <? ll then [(0, ll)] else []) ++ [(ll, total - slack)].
+Proof.
+  unfold strict_ranges, section_ranges. cbv zeta. cbn [Z.ltb Z.compare app].
+  replace (total - 0 - slack) with (total - slack) by lia. reflexivity.
+Qed.
+
+Lemma ranges_slack_zero total ll tl : 0 <= tl ->
+  extended_ranges total ll tl 0 = strict_ranges total ll tl 0.
+Proof.
+  intros Ht. unfold extended_ranges, strict_ranges. cbv zeta. destruct (0 <? tl) eqn:E.
+  - f_equal. lia.
+  - assert (tl = 0) by lia. subst tl. f_equal; lia.
+Qed.
+
+Lemma prepeptide_slack_ranges total ll tl slack :
+  (0 < tl ->
+   extended_ranges total ll tl slack
+   = (if 0 <? ll then [(0, ll)] else []) ++ [(ll, total - tl - slack); (total - tl - slack, total)] /\
+   strict_ranges total ll tl slack
+   = (if 0 <? ll then [(0, ll)] else []) ++ [(ll, total - tl - slack); (total - tl - slack, total - slack)]) /\
+  extended_ranges total ll 0 slack = (if 0 <? ll then [(0, ll)] else []) ++ [(ll, total)] /\
+  strict_ranges total ll 0 slack = (if 0 <? ll then [(0, ll)] else []) ++ [(ll, total - slack)].
+Proof.
+  split; [intros H; split|split].
+  - exact (extended_ranges_tail total ll tl slack H).
+  - exact (strict_ranges_tail total ll tl slack H).
+  - exact (extended_ranges_no_tail total ll slack).
+  - exact (strict_ranges_no_tail total ll slack).
+Qed.
+
+Lemma prepeptide_slack_zero g ll tl :
+  0 <= tl ->
+  prepeptide_locs_s g ll tl 0 = prepeptide_locs_old_s g ll tl 0 /\
+  prepeptide_locs g ll tl = prepeptide_locs_old_s g ll tl 0.
+Proof. intros H. split; [exact (prepeptide_s_zero g ll tl H)|exact (prepeptide_zero_old g ll tl H)]. Qed.
+
+(* the repaired function: for every slack >= 0 the sections exist and are the sub-locations of the extended ranges -
+   every section exact, but the last one running on to the end of the location *)
+Lemma prepeptide_s_guard g ll tl slack :
+  guard_gene g = true -> 0 <= ll -> 0 <= tl -> 0 <= slack -> ll + tl + slack < llen g / 3 ->
+  exists locs, prepeptide_locs_s g ll tl slack = Ok locs /\
+    sections_ok g (extended_ranges (llen g / 3) ll tl slack) locs /\
+    spec_prepeptide_relaxed_s g ll tl slack (Ok locs) = true.
+Proof.
+  intros Hg Hl Ht Hs Hlt.
+  assert (H : exists locs, prepeptide_locs_s g ll tl slack = Ok locs /\
+                           sections_ok g (extended_ranges (llen g / 3) ll tl slack) locs).
+  { unfold prepeptide_locs_s, extended_ranges, section_ranges, sections_ok.
+    set (total := llen g / 3) in *. cbv zeta.
+    replace (ll + (total - ll - tl - slack)) with (total - tl - slack) by lia.
+    destruct (0 <? tl) eqn:Etl; destruct (0 <? ll) eqn:Ell.
+    - destruct (subloc_guard g 0 ll false false Hg) as [a [Ha Hao]]; [lia|fold total; lia|].
+      destruct (subloc_guard g ll (total - tl - slack) false false Hg) as [c [Hc Hco]]; [lia|fold total; lia|].
+      destruct (subloc_guard g (total - tl - slack) total false false Hg) as [t [Htl Hto]]; [lia|fold total; lia|].
+      rewrite Ha, Hc, Htl. cbn [bind app]. eexists. split; [reflexivity|].
+      repeat (apply Forall2_cons; [assumption|]). apply Forall2_nil.
+    - destruct (subloc_guard g ll (total - tl - slack) false false Hg) as [c [Hc Hco]]; [lia|fold total; lia|].
+      destruct (subloc_guard g (total - tl - slack) total false false Hg) as [t [Htl Hto]]; [lia|fold total; lia|].
+      rewrite Hc, Htl. cbn [bind app]. eexists. split; [reflexivity|].
+      repeat (apply Forall2_cons; [assumption|]). apply Forall2_nil.
+    - destruct (subloc_guard g 0 ll false false Hg) as [a [Ha Hao]]; [lia|fold total; lia|].
+      destruct (subloc_guard g ll total false false Hg) as [c [Hc Hco]]; [lia|fold total; lia|].
+      rewrite Ha, Hc. cbn [bind app]. eexists. split; [reflexivity|].
+      repeat (apply Forall2_cons; [assumption|]). apply Forall2_nil.
+    - destruct (subloc_guard g ll total false false Hg) as [c [Hc Hco]]; [lia|fold total; lia|].
+      rewrite Hc. cbn [bind app]. eexists. split; [reflexivity|].
+      repeat (apply Forall2_cons; [assumption|]). apply Forall2_nil. }
+  destruct H as [locs [H1 H2]]. exists locs. split; [assumption|]. split; [assumption|].
+  unfold spec_prepeptide_relaxed_s. rewrite (spec_sections_of_ok _ _ _ H2). apply orb_true_r.
+Qed.
+
+(* with a tail: leader and core are exact (the core has three bases per residue of the core and ends where the
+   tail's first codon starts), the tail starts at its first residue and holds the trailing 3*slack bases as well *)
+Lemma prepeptide_s_tail g ll tl slack :
+  guard_gene g = true -> 0 <= ll -> 0 < tl -> 0 <= slack -> ll + tl + slack < llen g / 3 ->
+  exists lead c t, prepeptide_locs_s g ll tl slack = Ok (lead ++ [c; t]) /\
+    sections_ok g (if 0 <? ll then [(0, ll)] else []) lead /\
+    subloc_ok g ll (llen g / 3 - tl - slack) c /\
+    llen c = 3 * (llen g / 3 - ll - tl - slack) /\
+    subloc_ok g (llen g / 3 - tl - slack) (llen g / 3) t /\
+    llen t = 3 * tl + 3 * slack.
+Proof.
+  intros Hg Hl Ht Hs Hlt.
+  destruct (prepeptide_s_guard g ll tl slack Hg Hl) as [locs [H1 [H2 _]]]; [lia|assumption|assumption|].
+  unfold sections_ok in H2. rewrite extended_ranges_tail in H2 by assumption.
+  apply Forall2_app_inv_l in H2. destruct H2 as [lead [rest [Hlead [Hrest ->]]]].
+  inversion Hrest as [|r1 c rr1 lr1 Hc Hrest1]; subst.
+  inversion Hrest1 as [|r2 t rr2 lr2 Htl Hrest2]; subst.
+  inversion Hrest2; subst. cbn [fst snd] in Hc, Htl.
+  exists lead, c, t. split; [assumption|]. split; [assumption|]. split; [assumption|].
+  split; [destruct Hc as [_ [Hc _]]; lia|]. split; [assumption|].
+  destruct Htl as [_ [Htl _]]. lia.
+Qed.
+
+(* slack = 0: the strict specification holds (this is C09_prepeptide_partition's case) *)
+Lemma prepeptide_s_zero_strict g ll tl :
+  guard_gene g = true -> 0 <= ll -> 0 <= tl -> ll + tl < llen g / 3 ->
+  exists locs, prepeptide_locs_s g ll tl 0 = Ok locs /\
+    sections_ok g (strict_ranges (llen g / 3) ll tl 0) locs /\
+    spec_prepeptide_s g ll tl 0 (Ok locs) = true.
+Proof.
+  intros Hg Hl Ht Hlt.
+  destruct (prepeptide_s_guard g ll tl 0 Hg Hl Ht) as [locs [H1 [H2 _]]]; [lia|lia|].
+  rewrite ranges_slack_zero in H2 by assumption.
+  exists locs. split; [assumption|]. split; [assumption|].
+  unfold spec_prepeptide_s. apply spec_sections_of_ok. assumption.
+Qed.
+
+(* the strict specification implies the relaxed one *)
+Lemma spec_strict_relaxed g ll tl slack out :
+  spec_prepeptide_s g ll tl slack out = true -> spec_prepeptide_relaxed_s g ll tl slack out = true.
+Proof. intros H. unfold spec_prepeptide_relaxed_s. rewrite H. reflexivity. Qed.
+
+(* ----- refutations: LEAD + CORE + TL (4, 4, 2 residues) on [0:33](+), a location of 11 codons: slack = 1 ----- *)
+Definition stop_gene : loc := [mkPart 0 33 1].
+
+(* the code BEFORE the repair: the core [12:27] holds 15 bases for 4 residues (it swallows the tail's first codon),
+   the tail [27:33] starts one residue late; not even the relaxed specification holds *)
+Lemma prepeptide_old_tail_refuted :
+  exists g ll tl a c t, guard_gene g = true /\ 0 <= ll /\ 0 < tl /\ ll + tl + 1 < llen g / 3 /\
+    prepeptide_locs_old_s g ll tl 1 = Ok [a; c; t] /\
+    llen c = 3 * (llen g / 3 - ll - tl - 1) + 3 /\
+    idx t <> sublist (3 * (llen g / 3 - tl - 1)) (3 * (llen g / 3)) (idx g) /\
+    spec_prepeptide_relaxed_s g ll tl 1 (Ok [a; c; t]) = false.
+Proof.
+  exists stop_gene, 4, 2, [mkPart 0 12 1], [mkPart 12 27 1], [mkPart 27 33 1].
+  split; [vm_compute; reflexivity|]. split; [lia|]. split; [lia|]. split; [vm_compute; reflexivity|].
+  split; [vm_compute; reflexivity|]. split; [vm_compute; reflexivity|].
+  split; [vm_compute; discriminate|]. vm_compute. reflexivity.
+Qed.
+
+(* the REPAIRED code on the same prepeptide: leader [0:12], core [12:24] exact, tail [24:33] = its two residues
+   plus the stop codon - the relaxed specification holds, the strict one does not (what is left of the finding) *)
+Lemma prepeptide_last_section_refuted :
+  exists g ll tl a c t, guard_gene g = true /\ 0 <= ll /\ 0 < tl /\ ll + tl + 1 < llen g / 3 /\
+    prepeptide_locs_s g ll tl 1 = Ok [a; c; t] /\
+    llen c = 3 * (llen g / 3 - ll - tl - 1) /\
+    llen t = 3 * tl + 3 /\
+    spec_prepeptide_s g ll tl 1 (Ok [a; c; t]) = false /\
+    spec_prepeptide_relaxed_s g ll tl 1 (Ok [a; c; t]) = true.
+Proof.
+  exists stop_gene, 4, 2, [mkPart 0 12 1], [mkPart 12 24 1], [mkPart 24 33 1].
+  split; [vm_compute; reflexivity|]. split; [lia|]. split; [lia|]. split; [vm_compute; reflexivity|].
+  split; [vm_compute; reflexivity|]. split; [vm_compute; reflexivity|]. split; [vm_compute; reflexivity|].
+  split; vm_compute; reflexivity.
+Qed.
+
+(* without a tail the core is the last section: LEAD + CORETL on [0:33] gives the core [12:33], 21 bases for 6
+   residues (before and after the repair) *)
+Lemma prepeptide_core_stop_refuted :
+  exists g ll a c, guard_gene g = true /\ 0 <= ll /\ ll + 0 + 1 < llen g / 3 /\
+    prepeptide_locs_s g ll 0 1 = Ok [a; c] /\ prepeptide_locs_old_s g ll 0 1 = Ok [a; c] /\
+    llen c = 3 * (llen g / 3 - ll - 0 - 1) + 3 /\
+    spec_prepeptide_s g ll 0 1 (Ok [a; c]) = false /\
+    spec_prepeptide_relaxed_s g ll 0 1 (Ok [a; c]) = true.
+Proof.
+  exists stop_gene, 4, [mkPart 0 12 1], [mkPart 12 33 1].
+  split; [vm_compute; reflexivity|]. split; [lia|]. split; [vm_compute; reflexivity|].
+  split; [vm_compute; reflexivity|]. split; [vm_compute; reflexivity|]. split; [vm_compute; reflexivity|].
+  split; vm_compute; reflexivity.
 Qed.
